@@ -126,4 +126,26 @@ def Rat'.roundHalfEven (q : Rat') : Int :=
   let r2 := 2 * (q.num % d)
   if r2 < d then fl else if r2 > d then fl + 1 else (if fl % 2 == 0 then fl else fl + 1)
 
+/-- where `Rotation.rotation_size` takes "the size of the file" from (regenerated from its body,
+`Gen.sizeSource`; interpreted on the stream model of `Rotation/Stream.lean`) -/
+inductive SizeSource where
+  | seekEndTell   -- file.seek(0, 2) and then file.tell() (or the value seek itself returns)
+  | tellOnly      -- file.tell() at the stream's own position
+  | statSize      -- os.fstat(file.fileno()).st_size / os.stat / os.path.getsize: what has reached the OS
+  deriving Repr, DecidableEq
+
+/-- how `RotationGroup.__call__` combines its members (regenerated, `Gen.groupCombinator`) -/
+inductive GroupComb where
+  | anyInOrder    -- any(r(message, file) for r in self._rotations) / the equivalent explicit loop
+  | allInOrder    -- all(…)
+  deriving Repr, DecidableEq
+
+/-- the three things `FileSink.write` does with a message, in the order of the source
+(regenerated, `Gen.writeOrder`) -/
+inductive WriteStep where
+  | ensureOpen    -- if self._file is None: create path / dirs / file
+  | rotationCheck -- if rotation_function(message, file): self._terminate_file(is_rotating=True)
+  | fileWrite     -- self._file.write(message)
+  deriving Repr, DecidableEq
+
 end Rotation
